@@ -128,7 +128,7 @@ func (r *Replayer) Replay(h *Harness, f *Finding, tag string) (*ReplayOutcome, e
 		}
 	}
 	rf := map[string]interface{}{"harness": h.Name, "inputs": inputs, "expect": f.Kind + ":" + f.Assertion, "site": f.Site,
-		"schedule": f.Schedule, "property": r.prop, "msg": f.Msg}
+		"schedule": f.Schedule, "property": r.prop, "msg": f.Msg, "tier": h.Opts["tier"]}
 	path := filepath.Join(dir, sanitize(h.Name+"-"+tag)+".json")
 	b, _ := json.MarshalIndent(rf, "", " ")
 	if err := os.WriteFile(path, b, 0o644); err != nil {
